@@ -107,7 +107,7 @@ class AccessRuleCheck(Job):
         self.name = "c08m::check_authorization_against_access_rule_depth%d" % depth
         self.what = ("Authorization::check_authorization_against_access_rule (with verify_auth_rule and verify_proof_rule) "
                      "for AllowAll, DenyAll and every Protected rule tree of composite depth <= %d with lists of %d "
-                     "entries, all five basic requirement forms, any count (u8) and any amount, against every set of "
+                     "entries, all five basic requirement forms (depth 2: Require / AmountOf leaves), any count (u8) and any amount, against every set of "
                      "visible badges (3 non-fungible badges held or not, an optional fungible proof with any amount): "
                      "Authorized exactly when the rule is satisfied under the documented semantics of require, "
                      "amount-of, count-of, all-of, any-of and their composition" % (depth, WIDTH))
@@ -147,7 +147,9 @@ class AccessRuleCheck(Job):
         pre += [z3.And(d["held%d" % k] >= 0, d["held%d" % k] <= 1) for k in range(NB)]
         for n, v in d.items():
             if n.endswith("b") and n.startswith("t"):
-                pre += [v >= 0, v <= 4]
+                # depth 2 explores the composition of composites: its leaves are Require / AmountOf only (the list forms
+                # at the leaves are covered by the depth-1 job); otherwise the path count squares
+                pre += [v >= 0, v <= (1 if self.depth >= 2 else 4)]
             elif n.endswith("amt"):
                 pre += [v >= 0, v <= 10 ** 30]
             elif n.endswith("cnt"):
@@ -199,7 +201,8 @@ class AccessRuleCheck(Job):
         d = {k: lit(v) for k, v in inp.items()}
         a = lit(res["auth"])
         return [("authorized", z3.And(a, d["ar"] == 2)), ("failed", z3.And(z3.Not(a), d["ar"] == 2)),
-                ("count-of satisfied by 2", z3.And(a, d["ar"] == 2, d["tb"] == 2, d["tcnt"] == 2, d.get("tk", z3.IntVal(0)) == 0)),
+                ("count-of satisfied by 2", z3.And(a, d["ar"] == 2, d["tb"] == 2, d["tcnt"] == 2, d.get("tk", z3.IntVal(0)) == 0)
+                 if self.depth < 2 else z3.And(a, d["ar"] == 2, d["tk"] == 2, d["tc0k"] == 1)),
                 ("amount-of satisfied", z3.And(a, d["ar"] == 2, d["tb"] == 1, d.get("tk", z3.IntVal(0)) == 0)), ("deny all", d["ar"] == 1)]
 
     def vectors(self, rng):
